@@ -3,7 +3,9 @@
 (* Engine T for C09: random yaws (0.1 mrad fixed point, M = 62832 units    *)
 (* per turn), optional small roll/pitch, both quaternion signs, ego and    *)
 (* map frame.  Event: a, b (yaws), w4 (APH weight x 1e4), e (yaw error in  *)
-(* 0.1 mrad), w4r (weight with the arguments swapped).                     *)
+(* 0.1 mrad), w4r (weight with the arguments swapped), tolw / tole: extra  *)
+(* tolerance (1e-4 / 0.1 mrad) for tilted objects stored in map, whose yaw *)
+(* relative to the ego is defined only up to O(tilt^2); 0 otherwise.       *)
 (***************************************************************************)
 EXTENDS Heading, Sequences, TLC, Json, IOUtils
 VARIABLES l, nrej
@@ -12,10 +14,10 @@ Ev == Trace[l]
 M == 62832
 Verdict(ev) ==
   LET d == D(ev.a, ev.b, M) IN
-  IF Abs(ev.w4 * (M \div 2) - (M \div 2 - d) * 10000) > 40000 THEN "weight-not-1-minus-d-over-pi"
+  IF Abs(ev.w4 * (M \div 2) - (M \div 2 - d) * 10000) > 40000 + 31416 * ev.tolw THEN "weight-not-1-minus-d-over-pi"
   ELSE IF Abs(ev.w4 - ev.w4r) > 1 THEN "weight-not-symmetric"
   ELSE IF ev.e < -(M \div 2) - 2 \/ ev.e > M \div 2 + 2 THEN "yaw-error-out-of-range"
-  ELSE IF Abs(Abs(ev.e) - d) > 4 THEN "yaw-error-magnitude"
+  ELSE IF Abs(Abs(ev.e) - d) > 4 + ev.tole THEN "yaw-error-magnitude"
   ELSE "ok"
 TraceInit == l = 1 /\ nrej = 0
 TraceNext == /\ l <= Len(Trace) /\ l' = l + 1
